@@ -477,7 +477,7 @@ theorem schema_refs_closed_general (F : Facts07) (hM : F.messageDedup = .perDocu
   obtain ⟨schemas, tr, hb, hd⟩ := gen_ok F hM e I url d h
   have hw := wf_unpack I hwf
   obtain ⟨tags, trace, hf, htr⟩ := schemaFacts_of_build F e he I hw schemas tr hb
-  have hinv := init_inv I hw.prefNodup hw.tnsFresh hw.tnsPref
+  have hinv := hw.prefsInv
   have hsch : d.schemas = schemas := by rw [hd]
   have hf' : SchemaFacts I d.schemas tags trace := by rw [hsch]; exact hf
   have hdecl : ∀ ns loc, (ns ∈ trace ∨ ns = nsXsd ∨ ns = I.tns) → d.declared ⟨ns, loc⟩ = true := by
@@ -485,8 +485,8 @@ theorem schema_refs_closed_general (F : Facts07) (hM : F.messageDedup = .perDocu
     have hkn : (∃ pf, (Prefs.init I).prefmap.lookup ns = some pf) ∨ ns ∈ tr := by
       rcases hk with hk | rfl | rfl
       · exact Or.inr (htr ns hk)
-      · exact Or.inl ⟨_, init_static I hw.nsNodup "xs" nsXsd hw.xs⟩
-      · exact Or.inl ⟨_, init_tns I hw.tnsFresh⟩
+      · exact Or.inl hw.knownXs
+      · exact Or.inl hw.knownTns
     obtain ⟨pf, h1, h2⟩ := declared_of_known (Prefs.init I) hinv tr
       ((messagesOf I).2 ++ (portTypesOf F I (stripWsdl url)).trace ++ (bindingsOf F I).trace) ns hkn
     rw [hd]
@@ -670,7 +670,7 @@ theorem wf_of_core_forced (F : Facts07) (hF : F.faultNs = .forcedTns) (I : IStat
   have hm' : m ∈ allMethods I := by simpa [allMethods, h2] using hm
   -- the fault is a class of the graph, hence of the table
   simp only [IState.wfCore, Bool.and_eq_true, List.all_eq_true, decide_eq_true_eq] at hcore
-  obtain ⟨⟨⟨⟨⟨⟨⟨⟨⟨⟨_, hg⟩, hmeth⟩, _⟩, _⟩, _⟩, _⟩, _⟩, _⟩, _⟩, _⟩ := hcore
+  obtain ⟨⟨⟨⟨⟨⟨⟨⟨_, hg⟩, hmeth⟩, _⟩, _⟩, _⟩, _⟩, _⟩, _⟩ := hcore
   have hwm := hmeth m hm
   simp only [IState.wfMeth, Bool.and_eq_true, List.all_eq_true, List.contains_eq_mem, decide_eq_true_eq] at hwm
   obtain ⟨⟨⟨⟨hh, _⟩, _⟩, _⟩, _⟩ := hwm
